@@ -52,6 +52,9 @@ pub fn local_part() -> BoxedStrategy<String> {
         // real-world shapes, split at '-' (a separator in a local version) and lower-cased; numbers beyond u32 / u64
         2 => super::text::realistic_ident().prop_map(|s| s.to_ascii_lowercase().split('-').find(|p| !p.is_empty()).unwrap_or("x").to_string()),
         1 => "[1-9][0-9]{9,26}",
+        // one segment longer than a commit hash
+        1 => "[a-z0-9]{41,70}",
+        1 => "[1-9][0-9]{40,60}",
     ]
     .prop_map(|s| if s.bytes().all(|b| b.is_ascii_digit()) { s.trim_start_matches('0').to_string() } else { s })
     .prop_map(|s| if s.is_empty() { "0".to_string() } else { s })
@@ -95,7 +98,7 @@ pub struct Spelling {
 }
 pub fn spelling() -> BoxedStrategy<Spelling> {
     (
-        (0u8..3, any::<bool>(), proptest::collection::vec(0u8..3, 1..6), 0u8..4, 0u8..4, 0u8..4),
+        (0u8..3, any::<bool>(), proptest::collection::vec(prop_oneof![12 => 0u8..3, 1 => 8u8..24], 1..6), 0u8..4, 0u8..4, 0u8..4),
         (0u8..4, 0u8..4, 0u8..4, 0u8..4, 0u8..4, 0u8..3),
         (proptest::collection::vec(0u8..3, 1..4), any::<bool>(), 0u8..3, prop::bool::weighted(0.3)),
     )
